@@ -323,6 +323,8 @@ def make_options(ospec, device=None, **override):
         kw["dt_max"] = float(o["dt_max"])
     elif "dtmax_c" in o:
         kw["dt_max"] = max(float(o["dtmax_c"]) * dts, kw.get("dt_init", 0.0))
+    if "dt_max" not in kw and kw.get("dt_init", 0.0) > 0.1:
+        kw["dt_max"] = kw["dt_init"]  # the library's default dt_max is 0.1; a coarse mesh allows a larger fixed step
     if "nsteps" in o:
         # fixed-step runs: solve_time chosen so that exactly nsteps updates are needed
         n = int(o["nsteps"])
